@@ -39,7 +39,7 @@ def _tel(pkg):
 class P(vlib.Prop):
     pid = "C19"
     coq_dirs = ["Common", "C19"]   # + Generated/C19*.v (written by P.translate, scanned below)
-    coq_targets = ["C19/Properties.vo", "C19/Witness.vo", "C19/Harness.vo"]
+    coq_targets = ["C19/Properties.vo", "C19/Witness.vo", "C19/Harness.vo", "C19/Checker.vo"]
     properties_module = "C19.Properties"
     properties_file = "C19/Properties.v"
     instance_obligations = []   # the four translator obligations (…_is_translated, validated_batch_is_valid_batch) are theorems of Properties.v
@@ -80,6 +80,7 @@ class P(vlib.Prop):
             "queue (none / memory / persistent, requests / items sizer, capacity), batch (none / sending_queue::batch / legacy batcher, min, max), "
             "retry and scripted pusher outcomes (ok / transient / permanent / partial / interrupted by shutdown), then Shutdown. "
             "exporter (real requests): the same chain through the public NewTraces/NewMetrics/NewLogs with pdata payloads, mostly sending_queue::batch with a small max_size (merge + split, also inside a metric); "
+            "a third of the queue configurations use block_on_overflow with producers whose context ends while they wait for room; what every Send returned is observed and compared; "
             "obsconsumer wrappers are created with 1-9 static attributes; "
             "Every case draws a tracer-provider mode (recording SDK spans / no-op provider / NeverSample / ParentBased(NeverSample)) and, for receiver and processor, a live or cancelled caller context. "
             "Every counter of the meter provider and the item attributes of the recorded spans are read back and compared name by name with the model's ledger; "
@@ -108,3 +109,63 @@ class P(vlib.Prop):
             text = src.replace("@PKG@", pkg)
             if not (os.path.exists(p) and open(p).read() == text):
                 open(p, "w").write(text)
+
+    # ------------------------------------------------------------------------------------------------
+    # failing-input search (DESIGN 2.5): (1) the decidable clause checker C19/Checker.v prop_ok, proved
+    # equivalent to the Prop-level clauses, is evaluated over ALL observed cases - it uses the generated
+    # input, the harness' own tallies and the counters, never the model's step functions; a case on which
+    # it fails and that no known finding explains is reported as the failing input.  (2) when an obligation
+    # over a translated function breaks, its (sampled) domain is enumerated for arguments on which the
+    # generated and the hand-written definition differ; the harnesses always run histories using such
+    # arguments (direct exports of 1/2/5 items ending ok / failed; the BatchConfig.Validate grid).
+    def extra_checks(self, ctx):
+        known = vlib.known_findings(self.pid)
+        explained = {f["term"] for f in ctx.oracle if any(self.match_known(k, f) for k in known)}
+        already = {f["term"] for f in ctx.oracle}
+        terms = [c["term"] for c in ctx.cases]
+        info = {"evaluated": 0, "violated": 0, "explained_by_known_findings": 0, "new_failing_inputs": 0}
+        if terms:
+            try:
+                vlib.coq_make(ctx, ["C19/Checker.vo"])
+                failed = vlib.coq_eval_cases(ctx, "C19.Checker", "prop_ok", self.case_type, terms, shard=self.shard)
+                info["evaluated"] = len(terms)
+                info["violated"] = len(failed)
+                names = {"1": "balance equation / own-signal counters", "2": "second clause of the case kind (errored / outgoing / capacity gauge)",
+                         "3": "size gauge out of range", "9": "an instrument of another signal or component moved"}
+                reported = set()
+                for i in failed:
+                    t = terms[i]
+                    if t in explained:
+                        info["explained_by_known_findings"] += 1
+                        continue
+                    code = vlib.coq_eval_term(ctx, "C19.Checker", "prop_code (%s)" % t) if len(t) < 20000 else "?"
+                    m = __import__("re").search(r"=\s*\(?(-?\d+)", code)
+                    cid = m.group(1) if m else "?"
+                    kind = "clause-violated-%s-%s" % (t.split()[0], cid)
+                    if kind in reported or t in already:
+                        continue
+                    reported.add(kind)
+                    info["new_failing_inputs"] += 1
+                    ctx.oracle.append({"kind": kind, "term": t, "harness": ctx.cases[i]["harness"],
+                                       "detail": "Coq clause checker prop_ok = false on the observed behaviour: %s" % names.get(cid, code)})
+            except vlib.Broken as b:
+                ctx.notes.append("clause checker could not be evaluated: " + b.what)
+        ctx.extra_coverage["clause_checker"] = info
+        # (2) translated obligations
+        if any("Translated.v" in w or "Translated.v" in d for w, d in ctx.broken):
+            exprs = {
+                "toNumItems": "filter (fun p => negb (let a := to_num_items (fst p) (snd p) in let b := Generated.C19ExpHelper.toNumItems (fst p) (negb (snd p)) in (fst a =? fst b) && (snd a =? snd b))%Z) (list_prod [0;1;2;5]%Z [true;false])",
+                "BatchConfig.Validate": "filter (fun p => negb (Bool.eqb (match Generated.C19ExpHelper.batch_config_validate false (fst p) (fst (snd p)) (snd (snd p)) with None => true | Some _ => false end) ((0 <? fst p) && (0 <=? fst (snd p)) && (0 <=? snd (snd p)) && ((snd (snd p) =? 0) || (fst (snd p) <=? snd (snd p))))%Z)) (list_prod [0;1]%Z (list_prod [-1;0;1;2;3]%Z [-1;0;1;2;3]%Z))",
+            }
+            try:
+                vlib.coq_make(ctx, ["Generated/C19ExpHelper.vo", "C19/Model.vo"])
+                for name, e in exprs.items():
+                    vf = os.path.join(ctx.work, "Diff_%s.v" % name.replace(".", "_"))
+                    open(vf, "w").write("From Verif Require Import Common.Base C19.Model.\nFrom Verif Require Generated.C19ExpHelper.\n"
+                                        "Definition R := Eval vm_compute in (%s).\nGoal True. idtac \"@@BEGIN\". Abort.\nPrint R.\nGoal True. idtac \"@@END\". Abort.\n" % e)
+                    rc, out = vlib.run(["coqc", "-Q", vlib.COQ, "Verif", "-w", "-all", "-o", vf + "o", vf], cwd=ctx.work, timeout=300)
+                    m = __import__("re").search(r"@@BEGIN\s*(.*?)@@END", out, __import__("re").S)
+                    ctx.notes.append("translated %s: arguments on which the generated and the hand-written definition differ: %s"
+                                     % (name, " ".join(m.group(1).split()) if m else "<evaluation failed>"))
+            except vlib.Broken as b:
+                ctx.notes.append("domain enumeration of the translated functions failed: " + b.what)
